@@ -195,11 +195,37 @@ def dedup(keys):
     return out
 
 
-PUBLIC_APIS = ["offset", "produce", "offset_fetch", "offset_commit"]
+PUBLIC_APIS = ["offset", "produce", "fetch", "fetch", "offset_fetch", "offset_commit"]
+
+
+BYTES_OFFSET_FETCH_OK = [None]
+
+
+def probe_bytes_offset_fetch():
+    """F-C07-3: does send_offset_fetch_request accept a bytes group name (as every other group API does)?
+    -> (ok, description of what happened)"""
+    h = {"hosts": [[101, 9092]], "form": "tuples", "universe": UNIVERSE, "seed": 0,
+         "ops": [{"op": "send", "api": "offset_fetch", "group": 1, "group_form": "bytes", "fail": False, "expect": True,
+                  "payloads": [[0, 0]],
+                  "plan": {"coord_default": [0, 1, 101, 9092], "coord_of": {"1": 1},
+                           "meta_default": {"brokers": [[1, 101, 9092]], "topics": [[0, 0, [[0, 0, 1]]]]}}}]}
+    _c, _t, obs, _s = run(h)
+    res = obs[0]["result"]
+    ok = res["kind"] == "ok" and len(obs[0]["pump"]["reqs"]) == 1
+    BYTES_OFFSET_FETCH_OK[0] = ok
+    return ok, {"history": h, "result": res, "requests_sent": len(obs[0]["pump"]["reqs"])}
+
+
+def group_form(rnd, api=None):
+    """group names are accepted as text or bytes everywhere (client.py _coerce_consumer_group)"""
+    f = "bytes" if rnd.random() < 0.35 else None
+    if api == "offset_fetch" and not BYTES_OFFSET_FETCH_OK[0]:
+        return None          # finding F-C07-3 (reported by the probe): keep the histories inside the model
+    return f
 
 
 def gen_send(rnd, W, api=None, maxp=6, fail=None, many=False):
-    api = api or rnd.choice(["direct", "direct", "offset", "produce", "offset_fetch", "offset_commit"])
+    api = api or rnd.choice(["direct", "direct", "offset", "produce", "fetch", "fetch", "offset_fetch", "offset_commit"])
     n = rnd.choice([2, 3, 4, 5, 6, 8, maxp, maxp + 2]) if many else rnd.choice([1, 1, 2, 3, 4, maxp, maxp + 2])
     keys = W.payload_keys(n)
     group = None
@@ -214,6 +240,8 @@ def gen_send(rnd, W, api=None, maxp=6, fail=None, many=False):
         expect = False
     op = {"op": "send", "api": api, "group": group, "fail": (rnd.random() < 0.5) if fail is None else fail,
           "expect": expect, "payloads": [list(k) for k in keys], "plan": W.plan(group)}
+    if group is not None:
+        op["group_form"] = group_form(rnd, api)
     return op
 
 
@@ -311,12 +339,12 @@ def gen_history(rnd, flavour="mixed", nops=None):
             op = {"op": "meta", "topics": ts, "plan": pl}
         elif x < 0.64:
             g = rnd.randint(0, 2)
-            op = {"op": "coord", "group": g, "plan": W.plan(g)}
+            op = {"op": "coord", "group": g, "group_form": group_form(rnd), "plan": W.plan(g)}
             if not honest and rnd.random() < 0.3:
                 op["plan"]["coord_default"] = [rnd.choice([15, 14, 16]), -1, 0, 0]
         elif x < 0.69:
             g = rnd.randint(0, 2)
-            op = {"op": "sendcoord", "group": g, "tag": rnd.randint(1, 50), "plan": W.plan(g)}
+            op = {"op": "sendcoord", "group": g, "group_form": group_form(rnd), "tag": rnd.randint(1, 50), "plan": W.plan(g)}
         elif x < 0.83:
             name, dropped = W.fault(extended=True)
             for n in dropped:
@@ -353,7 +381,7 @@ def gen_routing_history(rnd):
     if rnd.random() < 0.7:
         ops.append({"op": "meta", "topics": [], "plan": W.plan()})
     for _ in range(rnd.randint(2, 6)):
-        op = gen_send(rnd, W, api=rnd.choice(["direct", "direct", "offset", "produce", "produce", "offset_fetch", "offset_commit"]),
+        op = gen_send(rnd, W, api=rnd.choice(["direct", "direct", "offset", "produce", "fetch", "fetch", "offset_fetch", "offset_commit"]),
                       maxp=10, many=True)
         pl = op["plan"]
         nodes = sorted(W.brokers)
@@ -410,7 +438,7 @@ def gen_fallback_history(rnd):
         elif kind < 0.8:
             g = rnd.randint(0, 2)
             pl.update({k: v for k, v in W.plan(g).items() if k in ("coord_of", "coord_default")})
-            ops.append({"op": "coord", "group": g, "plan": pl})
+            ops.append({"op": "coord", "group": g, "group_form": group_form(rnd), "plan": pl})
         else:
             op = gen_send(rnd, W)
             op["plan"].update({k: v for k, v in pl.items() if k in ("bad", "boot", "boot_default")})
@@ -449,8 +477,10 @@ def gen_failover(rnd, attempts=3):
     if retry_fail:
         keys = [k for k in keys if k[0] == keys[0][0]]
 
+    gform = group_form(rnd, api)
+
     def send(fail=True):
-        return {"op": "send", "api": api, "group": group, "fail": fail, "expect": True,
+        return {"op": "send", "api": api, "group": group, "group_form": gform, "fail": fail, "expect": True,
                 "payloads": [list(k) for k in keys], "plan": W.plan(group)}
     for _ in range(rnd.randint(0, 2)):
         ops.append(send(rnd.random() < 0.5))
